@@ -37,6 +37,27 @@ quiet_reporter(int is_error, const char* file, int line, const char*,
             msg);
 }
 
+static std::string
+hex_enc(const std::string& s)
+{
+    static const char* d = "0123456789abcdef";
+    std::string o;
+    for (unsigned char c : s) {
+        o += d[c >> 4];
+        o += d[c & 15];
+    }
+    return o;
+}
+
+static std::string
+hex_dec(const std::string& h)
+{
+    std::string o;
+    for (size_t i = 0; i + 1 < h.size(); i += 2)
+        o += (char)strtol(h.substr(i, 2).c_str(), nullptr, 16);
+    return o;
+}
+
 static size_t
 bpp(int t)
 {
@@ -400,7 +421,21 @@ struct StorHarness : Harness
         snprintf(b, sizeof(b), "set slot=%d uri=%s name=f%d_%d meta=%s px=%d py=%d",
                  slot, uris[g.below(4)], slot, cyc, ms.c_str(), (int)g.below(4),
                  (int)g.below(4));
-        ops.push_back(b);
+        std::string setline = b;
+        if (g.chance(0.3)) {
+            // file names of any length with characters that mean something to
+            // URI and format handling (the slot/cycle suffix keeps them fresh)
+            static const char* alphabet = "abfile:%. -_+~#@!,=()[]{}&'";
+            std::string nm;
+            int len = g.chance(0.2) ? (int)g.range(60, 180) : (int)g.range(0, 12);
+            for (int i = 0; i < len; ++i)
+                nm += alphabet[g.below(strlen(alphabet))];
+            if (g.chance(0.2))
+                nm = "file:" + nm;
+            nm += "_" + std::to_string(slot) + "_" + std::to_string(cyc);
+            setline += " nameh=" + hex_enc(nm);
+        }
+        ops.push_back(setline);
         // frame ids are the caller's: they need not start at 0 in a file
         snprintf(b, sizeof(b), "start slot=%d fid=%llu", slot,
                  (unsigned long long)(g.chance(0.5) ? 0 : g.below(100000)));
@@ -792,6 +827,10 @@ struct StorHarness : Harness
                 if (!s.dev || s.started)
                     continue;
                 std::string name = op.s("name", "f");
+                if (op.has("nameh")) {
+                    name = hex_dec(op.s("nameh"));
+                    probe("reach.unusual_file_name");
+                }
                 std::string spelling = op.s("uri", "rel");
                 std::string base, path;
                 if (s.kind == "tiffjson") {
